@@ -113,7 +113,41 @@ def features(s, vectorize=False):
                 groups.setdefault((tpl_of.get(n), o, v), set()).add(n)
             if any(len(g) > 1 for g in groups.values()):
                 f.add('merged_sources_one_target_element')
+    if vectorize and vector_level_cycle(s, m, nodes, tpl_of):
+        f.add('vector_level_algebraic_cycle')
     return sorted(f)
+
+
+def vector_level_cycle(s, m, nodes, tpl_of):
+    """True iff merging structurally identical nodes creates a cycle among algebraic/input variables that does not
+    exist between the individual nodes (e.g. the algebraic output of node b feeds, through an edge, the algebraic chain
+    of node a of the same type): the vectorized update order cannot satisfy it."""
+    import networkx as nx
+    from ..refsem.expr import names_in
+    g = nx.DiGraph()
+
+    def grp(p):
+        n, o, v = p.rsplit('/', 2)
+        return (tpl_of.get(n, n), o, v)
+    for p, k in m.kind.items():
+        if p.startswith('__e'):
+            continue
+        if k == 'alg':
+            scope, rhs = m.rhs[p]
+            for nm in names_in(rhs):
+                q = f'{scope}/{nm}'
+                if m.kind.get(q) in ('alg', 'input'):
+                    g.add_edge(grp(q), grp(p))
+        elif k == 'input':
+            intra, edges = m.sources_of(p)
+            for q in intra + [e[1] for e in edges]:
+                if m.kind.get(q) in ('alg', 'input') and not q.startswith('__e'):
+                    g.add_edge(grp(q), grp(p))
+    try:
+        nx.find_cycle(g)
+        return True
+    except nx.NetworkXNoCycle:
+        return False
 
 
 def run_case(case):
